@@ -104,3 +104,51 @@ def memo_bypass(prog: Program, fi, ignore: Tuple[str, ...] = ("self", "cls", "di
         missing = [p for p in params if p not in kd and p not in ignore]
         out.append((r, ch, ast.unparse(key), missing))
     return out
+
+
+# ---------------------------------------------------------------------------
+def substring_tests(prog: Program):
+    """`a in b` / `a not in b` where b is certainly a string (a literal, a parenthesised literal mistaken for a one-element
+    tuple, a module constant that is one, the result of .upper() / str(), a parameter annotated str) and a is not a string
+    literal: a SUBSTRING test where a name lookup wants equality or membership in a collection.
+    -> [(FunctionInfo, Compare node, text of the right operand)]"""
+    out = []
+
+    def is_str(fi, e, depth=3) -> bool:
+        if depth <= 0:
+            return False
+        if isinstance(e, ast.Constant):
+            return isinstance(e.value, str)
+        if isinstance(e, ast.JoinedStr):
+            return True
+        if isinstance(e, ast.Call):
+            f = e.func
+            if isinstance(f, ast.Name) and f.id in ("str", "repr"):
+                return True
+            return isinstance(f, ast.Attribute) and f.attr in ("upper", "lower", "strip", "title", "format", "join", "casefold")
+        if isinstance(e, ast.Attribute) and e.attr == "name":
+            return True  # Enum.name
+        if isinstance(e, ast.Name):
+            fn = fi.node
+            binds = [s_.value for s_ in walk_no_nested(fn) if isinstance(s_, ast.Assign) and any(isinstance(t, ast.Name) and t.id == e.id for t in s_.targets)]
+            other = [x for x in walk_no_nested(fn) if isinstance(x, ast.Name) and x.id == e.id and isinstance(x.ctx, ast.Store)]
+            arg = next((a for a in fn.args.posonlyargs + fn.args.args + fn.args.kwonlyargs if a.arg == e.id), None)
+            ann = arg is not None and isinstance(arg.annotation, ast.Name) and arg.annotation.id == "str"
+            if arg is not None and not ann:
+                return False
+            if binds or ann:
+                return len(other) == len(binds) and all(is_str(fi, b, depth - 1) for b in binds)
+            c = prog.modules[fi.module].constants.get(e.id)
+            if c is not None and e.id not in {x.id for x in other}:
+                return is_str(fi, c, depth - 1)
+        return False
+
+    for q, fi in sorted(prog.funcs.items()):
+        for n in walk_no_nested(fi.node):
+            if isinstance(n, ast.Compare) and len(n.ops) == 1 and isinstance(n.ops[0], (ast.In, ast.NotIn)):
+                left, right = n.left, n.comparators[0]
+                if isinstance(left, ast.Constant):
+                    continue
+                if is_str(fi, right):
+                    out.append((fi, n, ast.unparse(right)))
+    return out
